@@ -210,6 +210,16 @@ pub fn run(ctx: &Ctx) -> Outcome {
         let y0 = if near { rng.int(-3, sh as i64) as i32 } else { rng.int(-lim, lim) as i32 };
         let r = if rng.chance(0.85) { (x0, y0, x0 + rng.int(0, 14) as i32, y0 + rng.int(0, 14) as i32) } else { (x0, y0, rng.int(-lim, lim) as i32, rng.int(-lim, lim) as i32) };
         let dst = if near { (rng.int(-6, dw as i64 + 1) as i32, rng.int(-6, dh as i64 + 1) as i32) } else { (rng.int(-lim, lim) as i32, rng.int(-lim, lim) as i32) };
+        // a huge source rectangle that starts far to the upper left and still takes in the source, with the
+        // destination point as far out, so that the block lands on the destination after all
+        let (r, dst) = if rng.chance(0.05) {
+            let big = |rng: &mut crate::prng::Rng| -> i32 { -(*rng.pick(&[1i64 << 20, 1 << 28, 1 << 29, (1 << 29) + 12345, 1 << 30, (1 << 30) + 7]) as i32) };
+            let (mx, my) = (big(&mut rng), if rng.chance(0.7) { big(&mut rng) } else { rng.int(-3, 3) as i32 });
+            let max = if rng.chance(0.5) { (sw + rng.int(-2, 3) as i32, sh + rng.int(-2, 3) as i32) } else { (*rng.pick(&[1i64 << 20, 1 << 29, 1 << 30, i32::MAX as i64, (1 << 30) + 99]) as i32, *rng.pick(&[1i64 << 20, 1 << 29, 1 << 30, i32::MAX as i64]) as i32) };
+            ((mx, my, max.0, max.1), (mx + rng.int(-4, dw as i64) as i32, my + rng.int(-4, dh as i64) as i32))
+        } else {
+            (r, dst)
+        };
         let c = Case {
             sw,
             sh,
